@@ -9,6 +9,7 @@ import Wormhole.Tie.SrvSumm
 import Wormhole.Tie.SrvTop
 import Wormhole.Tie.SrvSweep
 import Wormhole.Tie.Alloc
+import Wormhole.Tie.AllocProps
 
 namespace Wormhole.Tie
 open Wormhole Wormhole.PySrv
